@@ -822,7 +822,7 @@ fn main() {
             cx.select_case(&repo, &specs, Some(&key));
         }
     }
-    let n = args.budget(30, 150);
+    let n = args.budget(30, 300);
     for _ in 0..n {
         let scn = gen_scenario(&mut r, &mut cx.rep);
         let repo = cx.repo(&scn);
